@@ -374,8 +374,119 @@ func runC09(r *vk.Run) {
 	})
 	r.Require("container_window_points", 1000)
 
+	// window edges to the nanosecond: evaluation times with a sub-millisecond part (results are shown in
+	// milliseconds, windows are not), samples exactly on, one nanosecond inside and one outside both edges,
+	// and the instant 1970-01-01T00:00:00Z itself, which is a timestamp like any other
+	r.Phase("fineedges", r.N(400, 60000), func(c *vk.Case) {
+		rng := c.Rng
+		base := vk.Pick(rng, []int64{0, 0, metricT0})
+		d := vk.Pick(rng, []int64{0, 1, 500000, 999999, 250})
+		rg := int64(rng.Range(1, 2)) * 1e9
+		start := base + int64(rng.Range(1, 3))*1e9 + d
+		if base == 0 && rng.Bool() {
+			start = d // the grid starts at the epoch itself
+		}
+		steps := rng.Range(2, 5)
+		p := EvalP{Start: start, End: start + int64(steps)*1e9, Step: time.Second}
+		var recs []Rec
+		seen := map[int64]bool{}
+		add := func(ts int64) {
+			if ts < 0 || seen[ts] {
+				return
+			}
+			seen[ts] = true
+			recs = append(recs, Rec{TS: ts, Line: "tick", Labels: map[string]string{"job": "j"}})
+		}
+		if base == 0 {
+			add(0)
+		}
+		for k := -2; k <= steps; k++ {
+			edge := start + int64(k)*1e9
+			for _, off := range []int64{0, -1, 1, -d, -d - 1, 1 - d} {
+				if rng.Chance(1, 3) {
+					add(edge + off)
+				}
+			}
+		}
+		sortRecs(recs)
+		q := fmt.Sprintf(`count_over_time({job="j"} | drop msg [%ds])`, rg/1e9)
+		res, err := evalQuery(&MemQuerier{Recs: recs, ErrAfter: -1, Superset: rng.Bool()}, q, p)
+		c.Eval(1)
+		det := map[string]any{"query": q, "params": p, "sample_timestamps": keysOfSeen(seen), "result": res}
+		if err != nil {
+			c.Fail("", "query failed: "+q+": "+err.Error(), det)
+			return
+		}
+		at, dup := resultAt(res)
+		if dup != "" {
+			c.Fail("", q+": "+dup, det)
+			return
+		}
+		key := labelKey(map[string]string{"job": "j"})
+		edgeHits := 0
+		for _, T := range gridTimes(p) {
+			want := 0
+			for ts := range seen {
+				if ts >= T-rg && ts <= T {
+					want++
+					if ts == T || ts == T-rg || ts == 0 {
+						edgeHits++
+					}
+				}
+			}
+			check := func(kind string, got VS, ok bool) bool {
+				if want == 0 && !ok {
+					return true
+				}
+				if !ok || got.V != float64(want) {
+					c.Fail("", fmt.Sprintf("%s [%s]: T=%dns: %v (present=%v), %d samples lie in [T-%ds, T]", q, kind, T, got.V, ok, want, rg/1e9), det)
+					return false
+				}
+				return true
+			}
+			got, ok := at[floorDiv(T, 1e6)][key]
+			if !check("range", got, ok) {
+				return
+			}
+			ires, err := evalQuery(&MemQuerier{Recs: recs, ErrAfter: -1}, q, EvalP{Start: T, End: T})
+			c.Eval(1)
+			if err != nil {
+				c.Fail("", "instant query failed: "+err.Error(), det)
+				return
+			}
+			iat, _ := resultAt(ires)
+			got, ok = iat[floorDiv(T, 1e6)][key]
+			if !check("instant", got, ok) {
+				return
+			}
+			c.Count("fine_edge_points", 1)
+		}
+		if edgeHits > 0 {
+			c.Count("fine_edge_cases_with_samples_on_an_edge", 1)
+			c.Nontrivial(fmt.Sprintf("fineedges|%d", c.Idx))
+		}
+	})
+	r.Require("fine_edge_cases_with_samples_on_an_edge", 150)
+
 	r.Require("compared_points", 5000)
 	r.Require("edge_samples", 1000)
 	r.Require("shared_T_comparisons", 2000)
 	r.Require("distinct:step_vs_range", 3)
+}
+
+func keysOfSeen(m map[int64]bool) []int64 {
+	out := make([]int64, 0, len(m))
+	for k := range m {
+		out = append(out, k)
+	}
+	sort.Slice(out, func(i, j int) bool { return out[i] < out[j] })
+	return out
+}
+
+func floorDiv(a, b int64) int64 {
+	q := a / b
+	if a%b != 0 && (a < 0) != (b < 0) {
+		q--
+	}
+	return q
 }
